@@ -1136,6 +1136,19 @@ class Interp:
             self.ctx.pop()
 
     def ev_Loop(self, n, fr):
+        # `while let Some(pat) = it.next() { body }` is `for pat in it { body }`
+        body = n.get("body") or {}
+        inner = body.get("expr")
+        if inner is None and len(body.get("stmts", [])) == 1:
+            inner = body["stmts"][0].get("e")
+        if inner and inner["k"] == "If" and inner["c"]["k"] == "LetCond" and inner.get("e") is not None:
+            c = inner["c"]
+            init = c["init"]
+            pat = c["pat"]
+            somepat = (pat.get("ctor_of") or pat.get("def") or "")
+            if init["k"] == "MethodCall" and init["name"] == "next" and somepat.endswith("Some") and pat["k"] in ("TupleStruct", "Struct"):
+                sub = pat["pats"][0] if pat["k"] == "TupleStruct" else pat["fields"][0]["pat"]
+                return self.ev_For({"k": "For", "pat": sub, "iter": init["recv"], "body": inner["t"], "sp": n.get("sp")}, fr)
         self.ctx.append(("rep", Unknown("loop")))
         try:
             self.ev(n["body"], fr)
